@@ -16,7 +16,7 @@ LEVEL_TEXT = ("Static structural proof of necessary conditions: (R14.1) the 17 s
               "(schema, entry, attribute) call made by the runner; (R14.3) the three per-section passes iterate the "
               "section enum itself; (R14.4) error-context push/pop balanced. That released schemas pass and that a "
               "seeded fault is detected at every position are NOT decided.")
-LEVEL_EXTRA = "Added after the seeded evaluation: (R14.5) known/unknown of an attribute is decided against the valid-attribute table of the entry's own section. (R14.6) no issue list is discarded inside the compliance modules. (R14.7) attribute validators are skipped for attributes the entry's section does not declare. Added after the hunting pass: (R14.8) the key tested for an existing tag is one of the registered forms (a known finding today: repeated '#' children); (R14.9) per-library tables are consulted with the entry's own inLibrary value; (R14.10) NaN takes the conversion-factor report; (R14.11) the character pass guards the str use of raw attribute values."
+LEVEL_EXTRA = "Added after the seeded evaluation: (R14.5) known/unknown of an attribute is decided against the valid-attribute table of the entry's own section. (R14.6) no issue list is discarded inside the compliance modules. (R14.7) attribute validators are skipped for attributes the entry's section does not declare. Added after the hunting pass: (R14.8) the key tested for an existing tag is one of the registered forms (a known finding today: repeated '#' children); (R14.9) per-library tables are consulted with the entry's own inLibrary value; (R14.10) NaN takes the conversion-factor report; (R14.11) the character pass guards the str use of raw attribute values. (R14.12) a deprecatedFrom equal to the schema version takes the report; (R14.13) the unknown-attribute report is conditional on nothing but the unknown attributes; (R14.14) default units are looked up on the entry under validation; (R14.15) schema_version_for_library can answer with withStandard; (R14.16) the inLibrary report is guarded by the membership test alone."
 
 SIG = ["hed_schema", "tag_entry", "attribute_name"]
 
@@ -398,6 +398,117 @@ def run(ctx):
                          what="need not be a string", test="isinstance test")
     ctx.floor("R14.11", "raw attribute reads in the character pass", n11, 1)
 
+    # ---------------- R14.12: a deprecatedFrom equal to the schema's own version takes the report
+    ctx.rule("R14.12", "the deprecatedFrom test reports a version equal to the schema's (not older = invalid)")
+    tdc = prog.find_function("schema_attribute_validators.tag_is_deprecated_check")
+    ctx.saw(tdc)
+    v12 = view(ctx, tdc)
+    emits12 = [(n_, c) for (n_, c) in v12.calls(lambda c: call_name(c) == "format_error" and "SCHEMA_DEPRECATED_INVALID" in norm(c))]
+    ctx.floor("R14.12", "deprecatedFrom reports", len(emits12), 1)
+    decided = 0
+    for n_, c in emits12:
+        for cond in v12.conds(lambda t: any(isinstance(x, ast.Call) and call_name(x) == "Version" for x in ast.walk(t))):
+            for lab in (True, False):
+                if not v12.edge_guards(cond, lab, n_):
+                    continue
+                out = _equal_version_outcomes(cond.ast)
+                if out == {lab}:
+                    decided += 1
+                    ctx.ok("R14.12", "equal versions take the reporting edge of %s" % norm(cond.ast)[:70], loc(tdc, cond.ast))
+                elif out == {not lab}:
+                    decided += 1
+                    ctx.violation("R14.12", tdc.qualname, cond.ast, loc(tdc, cond.ast),
+                                  "with deprecatedFrom equal to the schema's own (known) version the test does not reach the report: only "
+                                  "a strictly newer version is refused, although a tag cannot be deprecated from the version that is being released")
+    ctx.floor("R14.12", "decidable version tests guarding the report", decided, 1)
+
+    # ---------------- R14.13: the unknown-attribute report depends on nothing but the entry's unknown attributes
+    ctx.rule("R14.13", "every entry with attributes its section does not declare reaches the SCHEMA_ATTRIBUTE_INVALID report")
+    chain = [("check_attributes", "_check_tag_entry_attributes"), ("_check_tag_entry_attributes", "_check_unknown_attributes"),
+             ("_check_unknown_attributes", "format_error_with_context")]
+    n13 = 0
+    for caller, callee in chain:
+        fm = sv.methods.get(caller)
+        if fm is None:
+            raise AnalysisError("anchor SchemaValidator.%s vanished" % caller)
+        ctx.saw(fm)
+        vv = view(ctx, fm)
+        sites = [(n_, c) for (n_, c) in vv.calls(lambda c, callee=callee: call_name(c) == callee
+                                                 and (callee != "format_error_with_context" or "SCHEMA_ATTRIBUTE_INVALID" in norm(c)))]
+        if not sites:
+            raise AnalysisError("R14.13: %s no longer calls %s" % (caller, callee))
+        for n_, c in sites:
+            n13 += 1
+            for cond in vv.conds():
+                for lab in (True, False):
+                    if cond is not n_ and vv.edge_guards(cond, lab, n_):
+                        names = {x.attr if isinstance(x, ast.Attribute) else x.id for x in ast.walk(cond.ast)
+                                 if isinstance(x, (ast.Attribute, ast.Name))}
+                        extra = names - {"_unknown_attributes", "tag_entry", "attribute_name", "self", "len"}
+                        ctx.check(not extra, "R14.13", fm.qualname, cond.ast, loc(fm, cond.ast),
+                                  "the report of attributes that the entry's section does not declare is made conditional on something else "
+                                  "(%s): entries for which it is false keep undeclared attributes unreported" % ", ".join(sorted(extra)),
+                                  desc="report conditional only on the unknown attributes")
+    ctx.floor("R14.13", "links of the unknown-attribute report chain", n13, 3)
+
+    # ---------------- R14.14: default units are looked up among the units of the entry's own class
+    ctx.rule("R14.14", "unit_exists looks the unit up on the entry under validation, not across the schema")
+    uex = prog.find_function("schema_attribute_validators.unit_exists")
+    ctx.saw(uex)
+    from sa.dataflow import ReachingDefs as _RD, depends_on as _dep
+    rd14 = _RD(uex)
+    ups = uex.params()
+    looks = [c for c in walk_no_nested(uex.node) if isinstance(c, ast.Call) and isinstance(c.func, ast.Attribute)
+             and c.func.attr in ("get_derivative_unit_entry", "get") and ("unit" in norm(c.func).lower())
+             and not norm(c.func.value).endswith(".attributes")]
+    ctx.floor("R14.14", "unit lookups in unit_exists", len(looks), 1)
+    for c in looks:
+        recv = c.func.value
+        on_entry = _dep(rd14, recv, c, lambda x: isinstance(x, ast.Name) and x.id == ups[1])
+        on_schema = _dep(rd14, recv, c, lambda x: isinstance(x, ast.Name) and x.id == ups[0])
+        ctx.check(on_entry and not on_schema, "R14.14", uex.qualname, c, loc(uex, c),
+                  "the unit named by defaultUnits is looked up outside the entry's own unit class (through the schema): a unit of "
+                  "another class is accepted as default unit", desc="unit looked up on the entry's own class")
+
+    # ---------------- R14.15: the version of the standard part of a partnered schema is its withStandard
+    ctx.rule("R14.15", "schema_version_for_library can answer with the schema's withStandard version")
+    svl = prog.find_function("schema_validation_util.schema_version_for_library")
+    ctx.saw(svl)
+    rd15 = _RD(svl)
+    rets15 = [r for r in walk_no_nested(svl.node) if isinstance(r, ast.Return) and r.value is not None]
+    ctx.floor("R14.15", "returns of schema_version_for_library", len(rets15), 1)
+    ok15 = any(_dep(rd15, r.value, r, lambda x: isinstance(x, ast.Attribute) and x.attr == "with_standard") for r in rets15)
+    # or stored into the table the answer is read from
+    ok15 = ok15 or any(isinstance(a, (ast.Assign, ast.AugAssign)) and any(isinstance(x, ast.Attribute) and x.attr == "with_standard"
+                                                                            for x in ast.walk(a.value)) for a in walk_no_nested(svl.node))
+    ctx.check(ok15, "R14.15", svl.qualname, "partnered-standard answer", loc(svl, svl.node),
+              "no returned value derives from the schema's withStandard: for the standard part of a partnered library the version is "
+              "unknown (None), so deprecatedFrom on its standard tags is never compared with the schema's version",
+              desc="a return derives from hed_schema.with_standard")
+
+    # ---------------- R14.16: a foreign inLibrary value is reported whenever it is not one of the schema's libraries
+    ctx.rule("R14.16", "the inLibrary report is conditional on the membership test alone")
+    ilc = prog.find_function("schema_attribute_validators.in_library_check")
+    ctx.saw(ilc)
+    v16 = view(ctx, ilc)
+    emits16 = [(n_, c) for (n_, c) in v16.calls(lambda c: call_name(c) == "format_error" and "SCHEMA_IN_LIBRARY_INVALID" in norm(c))]
+    ctx.floor("R14.16", "inLibrary reports", len(emits16), 1)
+    for n_, c in emits16:
+        n_member = 0
+        for cond in v16.conds():
+            for lab in (True, False):
+                if v16.edge_guards(cond, lab, n_):
+                    t = cond.ast
+                    pure = isinstance(t, ast.Compare) and len(t.ops) == 1 and isinstance(t.ops[0], (ast.In, ast.NotIn))
+                    pure = pure or (isinstance(t, ast.UnaryOp) and isinstance(t.op, ast.Not) and isinstance(t.operand, ast.Compare)
+                                    and isinstance(t.operand.ops[0], (ast.In, ast.NotIn)))
+                    n_member += 1
+                    ctx.check(pure, "R14.16", ilc.qualname, t, loc(ilc, t),
+                              "the report of a foreign inLibrary value depends on more than the membership test: where the extra "
+                              "condition is false (e.g. a standard schema, whose library list is empty) any library name passes",
+                              desc="report guarded by the membership test alone")
+        ctx.floor("R14.16", "tests guarding the inLibrary report", n_member, 1)
+
 
 def _unpack_names(node):
     t = node.targets[0] if isinstance(node, ast.Assign) else None
@@ -444,4 +555,38 @@ def _nan_outcomes(test, fvars):
                 return {False}
             if cn == "isinstance" and "float" in norm(test.args[1]):
                 return {True}
+    return both
+
+
+def _equal_version_outcomes(test):
+    """Truth values of a test when the two compared Version(...) values are equal, the version text is a known version
+    and every other plain name is truthy (unknown leaves: both)."""
+    both = {True, False}
+    if isinstance(test, ast.UnaryOp) and isinstance(test.op, ast.Not):
+        return {not x for x in _equal_version_outcomes(test.operand)}
+    if isinstance(test, ast.BoolOp):
+        outs = [_equal_version_outcomes(v) for v in test.values]
+        res = set()
+        if isinstance(test.op, ast.Or):
+            if any(True in o for o in outs):
+                res.add(True)
+            if all(False in o for o in outs) and not any(o == {True} for o in outs):
+                res.add(False)
+        else:
+            if all(True in o for o in outs) and not any(o == {False} for o in outs):
+                res.add(True)
+            if any(False in o for o in outs):
+                res.add(False)
+        return res
+    if isinstance(test, ast.Compare) and len(test.ops) == 1:
+        sides = [test.left, test.comparators[0]]
+        op = test.ops[0]
+        if all(isinstance(s, ast.Call) and call_name(s) == "Version" for s in sides):
+            return {True} if isinstance(op, (ast.LtE, ast.GtE, ast.Eq)) else {False} if isinstance(op, (ast.Lt, ast.Gt, ast.NotEq)) else both
+        if isinstance(op, ast.NotIn) and "version" in norm(test.left).lower():
+            return {False}
+        if isinstance(op, ast.In) and "version" in norm(test.left).lower():
+            return {True}
+    if isinstance(test, ast.Name):
+        return {True}
     return both
